@@ -571,7 +571,7 @@ func TestErrorPositionTable(t *testing.T) {
 				}
 			}
 			prog := gen.FixAll(append(prelude(), body...))
-			for li, lay := range []gen.Layout{gen.Minimal{}, &gen.Choices{C: []int{7, 2, 9, 4, 11, 1}}} {
+			for li, lay := range []gen.Layout{gen.Minimal{}, &gen.Choices{C: []int{7, 2, 9, 4, 11, 1}}, gen.Broken{}} {
 				src := gen.Print(prog, lay)
 				runFaultCase(t, "errtable", src, [2]int{s.P.Start, s.P.End}, name, load, nestd, fmt.Sprintf("table/%s/%d/%d", name, nestd, li))
 				if !load && !strings.Contains(src, "add_key") && !strings.Contains(src, "load_json") && !strings.Contains(src, "undefined_name") {
